@@ -183,6 +183,10 @@ mod dictionary {
     impl Codec for DictionaryCodec {
         /// Decode a sequence of byte slices.
         fn decode<'a>(&'a self, bytes: &'a [u8]) -> &'a [u8] {
+            // An empty item is always a literal: a dictionary hit is stored as its one-byte tag.
+            if bytes.is_empty() {
+                return bytes;
+            }
             if let Some(bytes) = self.decode.get(bytes[0].into()) {
                 bytes
             } else {
@@ -212,11 +216,13 @@ mod dictionary {
                 self.bytes += bytes.len();
                 output.push(bytes)
             };
-            // Stats stuff.
-            self.stats.0.insert(bytes.to_owned());
-            let tag = bytes[0];
-            let tag_idx: usize = (tag % 4).into();
-            self.stats.1[tag_idx] |= 1 << (tag >> 2);
+            // Stats stuff. The empty byte string has no first byte to record and nothing to gain
+            // from a dictionary entry.
+            if let Some(&tag) = bytes.first() {
+                self.stats.0.insert(bytes.to_owned());
+                let tag_idx: usize = (tag % 4).into();
+                self.stats.1[tag_idx] |= 1 << (tag >> 2);
+            }
 
             index
         }
